@@ -218,8 +218,29 @@ func checkPow10(tb *TB, f *ssa.Function) string {
 			return "the product is accumulated in " + res[0].Typ.String() + ", not uint64: 10^10 wraps"
 		}
 	}
-	if normT(res[0]) != "phi(bin(*; const(10); cycle(*)); const(1))" {
+	rotated := false
+	switch normT(res[0]) {
+	case "phi(bin(*; const(10); cycle(*)); const(1))":
+	case "phi(bin(*; const(10); phi(const(1); cycle(*))); const(1))":
+		// range-lowered loop (for range n): tested at the bottom, entered only for n > 0
+		rotated = true
+	default:
 		return "result is " + clip(normT(res[0]), 160) + ", not 1·10·10·… in full 64-bit arithmetic (a narrower accumulator wraps for 10^10)"
+	}
+	if rotated {
+		P := fmt.Sprintf("param(%s#0)", FuncName(f))
+		var conds []string
+		EachInstr(f, func(in ssa.Instruction) {
+			if iff, isIf := in.(*ssa.If); isIf {
+				conds = append(conds, normT(tb.Of(iff.Cond)))
+			}
+		})
+		sort.Strings(conds)
+		want := []string{"bin(<; bin(+; const(1); phi(const(0); cycle(*))); " + P + ")", "bin(<; const(0); " + P + ")"}
+		if len(conds) != 2 || conds[0] != want[0] || conds[1] != want[1] {
+			return "the loop does not run exactly n times (counting up to n or down from n)"
+		}
+		return ""
 	}
 	ok := false
 	EachInstr(f, func(in ssa.Instruction) {
@@ -463,6 +484,10 @@ func ruleWasmWindow(c *Check, w *World, tb *TB, iv *IV, pfx, name string, needGu
 		return
 	}
 	analyseWindow(c, w, tb, iv, pfx, f, func(cl *ssa.Call) bool { return cl.Call.StaticCallee() == vw }, "", needGuard)
+	// … and what is walked is the native per-step validation: compare core, verdicts, number coercion, key
+	wasmCompareCore(c, w, tb, pfx, vw, nil, sentinelErrors(w, tb, NewEffects(tb)))
+	ruleJSNumberCoercion(c, w, pfx+".9")
+	ruleWasmKey(c, w, tb, pfx+".9", jsRegistrations(w, tb), name)
 }
 
 func runC20(c *Check, w *World) {
@@ -572,53 +597,7 @@ func runC20(c *Check, w *World) {
 	}
 	c.Floor("R20.8", 4)
 	// wasm validator core: same shape as native validate()
-	if vw != nil {
-		vfn := FuncName(vw)
-		codeP := -1
-		for i, p := range vw.Params {
-			if b, ok := p.Type().Underlying().(*types.Basic); ok && b.Kind() == types.String {
-				codeP = i
-			}
-		}
-		checkCompareCore(c, w, tb, "R20.3", vw, codeP, func(h Hit, exp *Term) string {
-			if exp.Op != "extract" || exp.Sym != "0" || exp.Args[0].Op != "call" {
-				return "expected code is not the derivation's first result: " + clip(normT(exp), 160)
-			}
-			cl, ok := exp.Args[0].Val.(*ssa.Call)
-			if !ok || cl.Call.StaticCallee() != der {
-				return "expected code comes from " + exp.Args[0].Sym
-			}
-			a := exp.Args[0].Args
-			P := func(i int) string { return fmt.Sprintf("param(%s#%d)", vfn, i) }
-			// (secret, counter, digits.Int(), algo) of the validator's own parameters, by type
-			var sec, ctr, dig, alg string
-			for i, p := range vw.Params {
-				switch t := p.Type().Underlying().(type) {
-				case *types.Slice:
-					sec = P(i)
-				case *types.Basic:
-					if t.Kind() == types.Uint64 {
-						ctr = P(i)
-					}
-					if t.Kind() == types.Uint8 && strings.HasSuffix(p.Type().String(), "Digits") {
-						dig = P(i)
-					}
-					if t.Kind() == types.Uint8 && strings.HasSuffix(p.Type().String(), "Algorithm") {
-						alg = P(i)
-					}
-				}
-			}
-			if a[roles.Key].String() != sec || a[roles.Counter].String() != ctr || tb.Norm(a[roles.Digits]).String() != dig || a[roles.Algo].String() != alg {
-				return "the derivation is called with arguments other than the validator's own (secret, counter, digits, algorithm)"
-			}
-			return ""
-		})
-		for i, r := range Returns(vw) {
-			if why := classifyVerdict(w, tb, r.Results[0], r.Results[1], CondsAt(r.Block()), sent, 0); why != "" {
-				c.Bad("R20.3", vfn, fmt.Sprintf("verdict#%d", i), why, w.InstrPos(r))
-			}
-		}
-	}
+	wasmCompareCore(c, w, tb, "R20.3", vw, der, sent)
 
 	// ---- R20.4 argument mapping ------------------------------------------------------------------------
 	for name, f := range regs {
@@ -673,39 +652,8 @@ func runC20(c *Check, w *World) {
 		}
 	}
 	// ---- R20.6 number coercion ------------------------------------------------------------------------------
-	// JavaScript numbers become Go integers through js.Value.Int() only (truncation toward zero, what the
-	// contract documents); reading the float and converting it by hand rounds or saturates differently
-	nInt := 0
-	for _, g := range w.ModuleFuncs(WasmPath) {
-		EachInstr(g, func(in ssa.Instruction) {
-			ci, ok := in.(ssa.CallInstruction)
-			if !ok {
-				return
-			}
-			switch CalleeName(ci.Common()) {
-			case "(syscall/js.Value).Int":
-				nInt++
-				v := ci.Value()
-				direct := true
-				if v != nil && v.Referrers() != nil {
-					for _, r := range *v.Referrers() {
-						if bo, isB := r.(*ssa.BinOp); isB {
-							switch bo.Op {
-							case token.ADD, token.SUB, token.MUL, token.QUO, token.REM, token.SHL, token.SHR, token.AND, token.OR, token.XOR:
-								direct = false
-							}
-						}
-					}
-				}
-				c.Decide(direct, "R20.6", FuncName(g), "js-number:Int", "the JavaScript number is truncated toward zero by js.Value.Int() and used as it is", "the truncated JavaScript number is adjusted arithmetically before use", w.InstrPos(in))
-			case "(syscall/js.Value).Float":
-				c.Bad("R20.6", FuncName(g), "js-number:Float", "a JavaScript number is read as a float and converted by hand: fractional arguments are no longer truncated toward zero as documented (rounding moves 1.5 to 2)", w.InstrPos(in))
-			}
-		})
-	}
-	if nInt == 0 {
-		c.Unk("R20.6", "wasm", "js-number:Int", "no js.Value.Int() conversion found in the binding", "")
-	}
+	ruleJSNumberCoercion(c, w, "R20.6")
+	ruleWasmKey(c, w, tb, "R20.8", regs, "generateHOTP", "generateTOTP", "validateHOTP", "validateTOTP")
 	ruleNoPkgState(c, w, tb, ef, "R20.H", append(w.ModuleFuncs(WasmPath), der, vw))
 	c.Floor("R20.1", 10)
 	c.Floor("R20.3.validateHOTP.2", 1)
@@ -755,7 +703,8 @@ func init() {
 		explain: "Sibling cross-check of two implementations of one interface, in the js/wasm configuration (source only; the checked-in otp.wasm binary and wasm_exec.js are not analysed): R20.1 the names registered with js.Global().Set(name, js.FuncOf(f)) equal the keys of the object that index.js resolves (comment/string-aware tokenizer), each key bound to globalThis.<same key>; " +
 			"R20.2 the binding's derivation satisfies the same RFC 4226 composition rules as the native one (hash chosen by a switch selecting sha1/sha256/sha512.New for SHA1/SHA256/SHA512, key unchanged, one big-endian PutUint64 of the counter, the same dynamic-truncation function, digits gate 1..10, modulus = native table entry for 1..9 and a verified full-width 10^n loop otherwise — both ≥ 2^31 for 10 digits, hence equal behaviour), rendered as FormatUint(…,10) left-padded with '0' to the digits; " +
 			"R20.3 both binding window loops satisfy the native window rules (skew exactly 0..10 at the loop, i=-s..+s, the step counter depends on i, negative steps skipped, acceptance only under the step verdict) and the js/wasm validator has the native comparison core; R20.4 arguments reach their roles by the name given to the argument parser, and the TOTP period is positive at the division; " +
-			"R20.5 every string returned to JavaScript is either prefixed \"error:\" or the operation's value; R20.6 JavaScript numbers become integers through js.Value.Int() only (truncation), never through a hand conversion of Float(). Not decided: syscall/js itself, the Node/wasm runtime.",
+			"R20.5 every string returned to JavaScript is either prefixed \"error:\" or the operation's value; R20.6 JavaScript numbers become integers through js.Value.Int() only (truncation), never through a hand conversion of Float(). Not decided: syscall/js itself, the Node/wasm runtime. " +
+			"R20.7 every return statement of a registered function boxes a value js.ValueOf converts (js.Value, js.Func, nil, unnamed booleans/integers/floats/strings, []any, map[string]any) — anything else panics in the runtime, the Go program exits and every later call throws; R20.8 the function registered under each documented name is that operation: generateHOTP derives the code of its own argument #1, validateHOTP walks a window centred on its argument #2, the TOTP names work on the library's time-step function; the centre of a window is loop-invariant.",
 		trusted:  []string{"syscall/js", "the build of otp-js/lib/otp.wasm from these sources"},
 		quick:    []Config{CfgWasm},
 		thorough: []Config{CfgWasm},
@@ -791,6 +740,8 @@ func wasmGlobalWritten(w *World, sym string) bool {
 								walk(x)
 							case *ssa.FieldAddr:
 								walk(x)
+							case *ssa.Index, *ssa.Field, *ssa.Extract, *ssa.Range, *ssa.Next, *ssa.Phi:
+								// element and field reads of an array value, range iteration
 							case *ssa.UnOp:
 								if x.Op != token.MUL {
 									written = true
@@ -935,4 +886,157 @@ func bindingCounterKind(t *Term) string {
 		}
 	}
 	return "several different values"
+}
+
+// wasmDerivRoles: the parameter positions of the binding's derivation by type (key []byte, counter uint64, digits
+// int, algorithm uint8).
+func wasmDerivRoles(der *ssa.Function) (derivRoles, bool) {
+	roles := derivRoles{-1, -1, -1, -1}
+	for i, p := range der.Params {
+		switch t := p.Type().Underlying().(type) {
+		case *types.Slice:
+			roles.Key = i
+		case *types.Basic:
+			switch {
+			case t.Kind() == types.Uint64:
+				roles.Counter = i
+			case t.Kind() == types.Int:
+				roles.Digits = i
+			case t.Kind() == types.Uint8:
+				roles.Algo = i
+			}
+		}
+	}
+	return roles, roles.Key >= 0 && roles.Counter >= 0 && roles.Digits >= 0 && roles.Algo >= 0
+}
+
+// wasmCompareCore (shared by C20 and, in the js/wasm configuration, C03/C04): the binding's per-step validator has
+// the native compare core — the whole submitted string against the whole first result of the binding's derivation
+// called with the validator's own (secret, counter, digits, algorithm), in constant time, after the length test,
+// accepted only where the comparison is 1 and the derivation succeeded — and well-formed verdicts.
+func wasmCompareCore(c *Check, w *World, tb *TB, pfx string, vw, der *ssa.Function, sent map[string]bool) {
+	if vw == nil {
+		return
+	}
+	if der == nil {
+		der = w.Func(OtpPath, "DeriveRFC4226Wasm")
+	}
+	vfn := FuncName(vw)
+	codeP := -1
+	for i, p := range vw.Params {
+		if b, ok := p.Type().Underlying().(*types.Basic); ok && b.Kind() == types.String {
+			codeP = i
+		}
+	}
+	checkCompareCore(c, w, tb, pfx, vw, codeP, func(h Hit, exp *Term) string {
+		if exp.Op != "extract" || exp.Sym != "0" || exp.Args[0].Op != "call" {
+			return "expected code is not the derivation's first result: " + clip(normT(exp), 160)
+		}
+		cl, ok := exp.Args[0].Val.(*ssa.Call)
+		if !ok || der == nil || cl.Call.StaticCallee() != der {
+			return "expected code comes from " + exp.Args[0].Sym
+		}
+		roles, okR := wasmDerivRoles(der)
+		if !okR {
+			return "the derivation's key/counter/digits/algorithm parameters cannot be identified"
+		}
+		a := exp.Args[0].Args
+		P := func(i int) string { return fmt.Sprintf("param(%s#%d)", vfn, i) }
+		// (secret, counter, digits.Int(), algo) of the validator's own parameters, by type
+		var sec, ctr, dig, alg string
+		for i, p := range vw.Params {
+			switch t := p.Type().Underlying().(type) {
+			case *types.Slice:
+				sec = P(i)
+			case *types.Basic:
+				if t.Kind() == types.Uint64 {
+					ctr = P(i)
+				}
+				if t.Kind() == types.Uint8 && strings.HasSuffix(p.Type().String(), "Digits") {
+					dig = P(i)
+				}
+				if t.Kind() == types.Uint8 && strings.HasSuffix(p.Type().String(), "Algorithm") {
+					alg = P(i)
+				}
+			}
+		}
+		if a[roles.Key].String() != sec || a[roles.Counter].String() != ctr || tb.Norm(a[roles.Digits]).String() != dig || a[roles.Algo].String() != alg {
+			return "the derivation is called with arguments other than the validator's own (secret, counter, digits, algorithm)"
+		}
+		return ""
+	})
+	for i, r := range Returns(vw) {
+		if len(r.Results) != 2 {
+			continue
+		}
+		if why := classifyVerdict(w, tb, r.Results[0], r.Results[1], CondsAt(r.Block()), sent, 0); why != "" {
+			c.Bad(pfx, vfn, fmt.Sprintf("verdict#%d", i), why, w.InstrPos(r))
+		}
+	}
+}
+
+// ruleJSNumberCoercion (R20.6; shared with C01–C04 in the js/wasm configuration): JavaScript numbers become Go
+// integers through js.Value.Int() only (truncation toward zero, what the contract documents); reading the float and
+// converting it by hand rounds or saturates differently.
+func ruleJSNumberCoercion(c *Check, w *World, rule string) {
+	nInt := 0
+	for _, g := range w.ModuleFuncs(WasmPath) {
+		EachInstr(g, func(in ssa.Instruction) {
+			ci, ok := in.(ssa.CallInstruction)
+			if !ok {
+				return
+			}
+			switch CalleeName(ci.Common()) {
+			case "(syscall/js.Value).Int":
+				nInt++
+				v := ci.Value()
+				direct := true
+				if v != nil && v.Referrers() != nil {
+					for _, r := range *v.Referrers() {
+						if bo, isB := r.(*ssa.BinOp); isB {
+							switch bo.Op {
+							case token.ADD, token.SUB, token.MUL, token.QUO, token.REM, token.SHL, token.SHR, token.AND, token.OR, token.XOR:
+								direct = false
+							}
+						}
+					}
+				}
+				c.Decide(direct, rule, FuncName(g), "js-number:Int", "the JavaScript number is truncated toward zero by js.Value.Int() and used as it is", "the truncated JavaScript number is adjusted arithmetically before use", w.InstrPos(in))
+			case "(syscall/js.Value).Float":
+				c.Bad(rule, FuncName(g), "js-number:Float", "a JavaScript number is read as a float and converted by hand: fractional arguments are no longer truncated toward zero as documented (rounding moves 1.5 to 2)", w.InstrPos(in))
+			}
+		})
+	}
+	if nInt == 0 {
+		c.Unk(rule, "wasm", "js-number:Int", "no js.Value.Int() conversion found in the binding", "")
+	}
+}
+
+// ruleWasmKey (shared by C01, C20 and C07's R07.2 in the js/wasm configuration): on every path from a registered
+// function to an HMAC, the key is the first result of the library's DecodeSecret — the binding decodes secrets
+// exactly like the native operations (no hex attempt first, no second decoder).
+func ruleWasmKey(c *Check, w *World, tb *TB, rule string, regs map[string]*ssa.Function, names ...string) {
+	for _, n := range names {
+		f := regs[n]
+		if f == nil {
+			continue
+		}
+		hits := tb.Reach(f, MatchCallee("crypto/hmac.New"), 10)
+		if len(hits) == 0 {
+			c.Unk(rule, "wasm."+n, "hmac-key", "no HMAC is reached from the function registered as "+n, w.Pos(f.Pos()))
+		}
+		for _, h := range hits {
+			k := h.Args[1]
+			isDec := func(t *Term) bool {
+				for _, alt := range t.Alts() {
+					if !(alt.Op == "extract" && alt.Sym == "0" && alt.Args[0].Op == "call" && alt.Args[0].Sym == "github.com/ja7ad/otp.DecodeSecret") {
+						return false
+					}
+				}
+				return true
+			}
+			ok := isDec(k) || isDec(tb.Norm(k)) // (a wrapper around DecodeSecret is read through)
+			c.Decide(ok, rule, "wasm."+n, "hmac-key", "the HMAC key is DecodeSecret(secret)#0", "the HMAC key behind "+n+" is "+clip(normT(k), 200)+": the binding decodes the secret differently from the native operation", w.InstrPos(h.Call))
+		}
+	}
 }
